@@ -17,7 +17,10 @@ import (
 	"fmt"
 	"io"
 	"log"
+	"math"
 	"net/netip"
+	"sort"
+	"strings"
 	"testing"
 	"time"
 
@@ -78,8 +81,34 @@ func wireProp(record func(c any, nontrivial bool, classes ...string), advertiser
 		cctx := NewContext(log.New(io.Discard, "", 0), mm, st)
 		if !advertiser {
 			mon := NewMonitor(cctx, "eth1", nil, nil, true)
+			at := time.Unix(1700000000, 0)
+			mon.now = func() time.Time { return at }
 			mon.handle(m, host.String())
 			series, _ := mm.Series()
+			// everything the monitor reports about a parsed RA, against the model of C18's message sequences (options
+			// whose prefix has host bits set or an impossible length are left out: how they are labelled is not prescribed)
+			if ra, ok := m.(*ndp.RouterAdvertisement); ok {
+				v := &vRA{M: ra.ManagedConfiguration, O: ra.OtherConfiguration, LifeS: int64(ra.RouterLifetime / time.Second)}
+				judged := true
+				for _, o := range ra.Options {
+					if pi, ok := o.(*ndp.PrefixInformation); ok {
+						pfx := netip.PrefixFrom(pi.Prefix, int(pi.PrefixLength))
+						if pi.PrefixLength > 128 || !pfx.IsValid() || pfx.Masked() != pfx {
+							judged = false
+							continue
+						}
+						v.Opts = append(v.Opts, vOpt{Kind: "prefix", Prefix: pfx.String(), OnLink: pi.OnLink, Auto: pi.AutonomousAddressConfiguration,
+							ValidS: int64(pi.ValidLifetime / time.Second), PrefS: int64(pi.PreferredLifetime / time.Second)})
+					}
+				}
+				if judged {
+					model := c18Model{}
+					c18Apply(model, c18Msg{Kind: "ra", RA: v, From: host.String()}, at, "eth1")
+					if err := c18Compare(model, series, 0); err != nil {
+						return verifkit.Violf("C18/wire-ra-metrics", "a parsed RA from %s: %v\nwire % x", host, err, c.Data)
+					}
+				}
+			}
 			key := fmt.Sprintf("interface=eth1,host=%s,message=%s", host, typ)
 			if got := series[monReceived].Samples[key]; got != 1 || len(series[monReceived].Samples) != 1 {
 				return verifkit.Violf("C18/wire-message-not-counted-once", "a parsed %s from %s: received counter %v\nwire % x", typ, host, series[monReceived].Samples, c.Data)
@@ -181,4 +210,97 @@ func FuzzVerif_C18wire(f *testing.F) {
 			}
 		}
 	})
+}
+
+// --- the monitor's metric model (shared by C18's message sequences and the wire check above) ---
+
+type c18Msg struct {
+	Kind  string `json:"kind"` // ra rs ns na
+	RA    *vRA   `json:"ra,omitempty"`
+	From  string `json:"from"`
+	Zone  string `json:"zone,omitempty"`
+	AtNS  int64  `json:"at_ns"` // receipt time relative to the start
+	Extra []vOpt `json:"-"`
+}
+
+type c18Model map[string]map[string]float64
+
+func (m c18Model) set(series, key string, v float64) {
+	if m[series] == nil {
+		m[series] = map[string]float64{}
+	}
+	m[series][key] = v
+}
+func (m c18Model) add(series, key string) {
+	if m[series] == nil {
+		m[series] = map[string]float64{}
+	}
+	m[series][key]++
+}
+
+func c18Apply(m c18Model, msg c18Msg, now time.Time, iface string) {
+	host := msg.From
+	b2f := func(b bool) float64 {
+		if b {
+			return 1
+		}
+		return 0
+	}
+	m.add(monReceived, fmt.Sprintf("interface=%s,host=%s,message=%s", iface, host, vkTypeName(msg.Kind)))
+	if msg.Kind != "ra" {
+		return
+	}
+	ra := msg.RA
+	rk := fmt.Sprintf("interface=%s,router=%s", iface, host)
+	m.set(monFlagManaged, rk, b2f(ra.M))
+	m.set(monFlagOther, rk, b2f(ra.O))
+	if ra.LifeS != 0 {
+		m.set(monDefaultRoute, rk, float64(now.Add(time.Duration(ra.LifeS)*time.Second).Unix()))
+	}
+	for _, o := range ra.Opts {
+		if o.Kind != "prefix" || o.RawLen > 128 {
+			continue // (how an option with an impossible prefix length is labelled is not prescribed)
+		}
+		pk := fmt.Sprintf("interface=%s,prefix=%s,router=%s", iface, o.Prefix, host)
+		m.set(monPrefixAutonomous, pk, b2f(o.Auto))
+		m.set(monPrefixOnLink, pk, b2f(o.OnLink))
+		m.set(monPrefixPreferred, pk, float64(now.Add(time.Duration(o.PrefS)*time.Second).Unix()))
+		m.set(monPrefixValid, pk, float64(now.Add(time.Duration(o.ValidS)*time.Second).Unix()))
+	}
+}
+
+var c18Series = []string{monReceived, monFlagManaged, monFlagOther, monDefaultRoute, monPrefixAutonomous, monPrefixOnLink, monPrefixPreferred, monPrefixValid}
+
+func c18Compare(model c18Model, got map[string]metricslite.Series, step int) error {
+	for _, s := range c18Series {
+		// samples labelled with something that is not a prefix come from options with an
+		// impossible prefix length (> 128): their labelling is not prescribed
+		gs := map[string]float64{}
+		for k, v := range got[s].Samples {
+			if i := strings.Index(k, "prefix="); i >= 0 {
+				p, _, _ := strings.Cut(k[i+len("prefix="):], ",")
+				if _, err := netip.ParsePrefix(p); err != nil {
+					continue
+				}
+			}
+			gs[k] = v
+		}
+		w, g := c18FmtSamples(model[s]), c18FmtSamples(gs)
+		if w != g {
+			return verifkit.Violf("C18/series-differs:"+s, "after message %d: %s\nwant %s\ngot  %s", step, s, w, g)
+		}
+	}
+	return nil
+}
+
+func c18FmtSamples(m map[string]float64) string {
+	var ks []string
+	for k, v := range m {
+		if math.IsNaN(v) {
+			v = -999
+		}
+		ks = append(ks, fmt.Sprintf("%s=%v", k, v))
+	}
+	sort.Strings(ks)
+	return strings.Join(ks, " ; ")
 }
